@@ -163,6 +163,7 @@ func TestCheck(t *testing.T) {
 	rep.Cases(n, func(idx int64, rng *mon.Rand) {
 		if idx%5 == 4 {
 			componentCase(ctx, rep, rng)
+			ifaceOptionCase(ctx, rep, rng.Sub("iface"))
 			return
 		}
 		mode := gspec.Mode(idx % 3)
